@@ -19,7 +19,7 @@ import (
 
 func init() {
 	vc.Register(&vc.Check{ID: "C02", Level: "model_checking", Run: run, Replay: replay, QuickSec: 150, ThoroSec: 900,
-		Rule: "(1) explicit enumeration of the COMPLETE finite product of per-step session outcomes: PassiveAuthResult {nil, failed, success} x CardSecurity authenticated {no, yes} x {AA, PACE-CAM, CA} each {absent, failed, succeeded} x completeness {ok, error} = 324 real Session values; Summary() and VerifiedChipAuthStatus() evaluated on every one against the statement's implications written independently. (2) Document.Verify over the complete product {DG14 stored, SOD lists 14, DG15 stored, SOD lists 15, CardAccess {absent, contained in DG14, not contained}}. (3) end-to-end hostile chip personalities through Reader.ReadDocument AND through ToCbor -> Verifier.Verify: clone without the CA / AA / CAM private key, clone with substituted DG14 / DG15 / CardSecurity key pair (its own protocol run succeeds), DG14 or DG15 withheld though listed, CardAccess extended so that it is not contained in DG14 - x access control {BAC, PACE-GM, PACE-CAM}. states = outcome tuples + hostile scenarios, transitions = step outcomes evaluated / exchanges; distinct_nontrivial = distinct (tuple | scenario, verdict)",
+		Rule:   "(1) explicit enumeration of the COMPLETE finite product of per-step session outcomes: PassiveAuthResult {nil, failed early, failed in the SOD chain, failed in CardSecurity after the SOD chain verified, success} x CardSecurity chain present {no, yes} x {AA, PACE-CAM, CA} each {absent, failed, succeeded} x completeness {ok, error} = 540 real Session values; Summary() and VerifiedChipAuthStatus() evaluated on every one against the statement's implications written independently. (2) Document.Verify over the complete product {DG14 stored, SOD lists 14, DG15 stored, SOD lists 15, CardAccess {absent, contained in DG14, not contained}} x every permutation of the SOD's hash list (a SEQUENCE OF without prescribed order). (3) end-to-end hostile chip personalities through Reader.ReadDocument AND through ToCbor -> Verifier.Verify: clone without the CA / AA / CAM private key, clone with substituted DG14 / DG15 / CardSecurity key pair (its own protocol run succeeds), DG14 or DG15 withheld though listed (hash list ascending, descending, withheld entry first), everything issued by a CSCA outside the trust store, CardAccess extended so that it is not contained in DG14 - x access control {BAC, PACE-GM, PACE-CAM}. states = outcome tuples + hostile scenarios, transitions = step outcomes evaluated / exchanges; distinct_nontrivial = distinct (tuple | scenario, verdict)",
 		Assume: []string{"a clone that copies genuine files may legitimately yield DataTrusted (the data IS genuine); the statement's claim for clones is about the chip-authentic verdict"}})
 }
 
@@ -35,11 +35,20 @@ func tri(v int, mk func(ok bool) any) any {
 
 func buildSession(pa, cardsec, aa, cam, ca, verr int) document.Session {
 	var s document.Session
+	// the shapes passiveauth.PassiveAuth can return: nil (not run); failed before the SOD was looked at; failed
+	// in the SOD signature/chain (Sod allocated, no chain); failed in CardSecurity after the SOD chain verified
+	// (Sod with chain; CardSec allocated without chain or - cardsec==1 - a chain left from a partial result); success
 	switch pa {
-	case 1:
+	case paFailEarly:
 		s.PassiveAuthResult = &document.PassiveAuthResult{Success: false}
 		s.PassiveAuthErr = errors.New("pa failed")
-	case 2:
+	case paFailSod:
+		s.PassiveAuthResult = &document.PassiveAuthResult{Success: false, Sod: &document.PassiveAuth{}}
+		s.PassiveAuthErr = errors.New("pa failed: SOD")
+	case paFailCardSec:
+		s.PassiveAuthResult = &document.PassiveAuthResult{Success: false, Sod: document.NewPassiveAuth([][]byte{{1}, {2}}), CardSec: &document.PassiveAuth{}}
+		s.PassiveAuthErr = errors.New("pa failed: CardSecurity")
+	case paOK:
 		s.PassiveAuthResult = &document.PassiveAuthResult{Success: true, Sod: document.NewPassiveAuth([][]byte{{1}, {2}})}
 	}
 	if cardsec == 1 && s.PassiveAuthResult != nil {
@@ -69,6 +78,15 @@ func buildSession(pa, cardsec, aa, cam, ca, verr int) document.Session {
 	return s
 }
 
+const (
+	paNil = iota
+	paFailEarly
+	paFailSod
+	paFailCardSec
+	paOK
+	paCount
+)
+
 type tuple struct{ PA, CardSec, AA, CAM, CA, VErr int }
 
 func checkTuple(t tuple) (key, what, sig string) {
@@ -79,7 +97,7 @@ func checkTuple(t tuple) (key, what, sig string) {
 		return "panic/summary", fmt.Sprintf("Summary panicked on %+v: %v", t, pv), ""
 	}
 	sig = fmt.Sprintf("trusted=%v/auth=%s", sum.DataTrusted, sum.ChipAuthenticity)
-	if sum.DataTrusted && !(t.PA == 2 && t.VErr == 0) {
+	if sum.DataTrusted && !(t.PA == paOK && t.VErr == 0) {
 		return "trusted-without-pa-or-completeness", fmt.Sprintf("DataTrusted for outcome tuple %+v", t), sig
 	}
 	if fmt.Sprint(sum.ChipAuthenticity) != fmt.Sprint(st) {
@@ -94,7 +112,7 @@ func checkTuple(t tuple) (key, what, sig string) {
 		mech = t.AA
 	case "PACE-CAM":
 		mech = t.CAM
-		if t.CardSec == 0 || t.PA != 2 {
+		if t.CardSec == 0 || t.PA != paOK {
 			return "cam-named-without-authenticated-cardsecurity", fmt.Sprintf("%+v names PACE-CAM", t), sig
 		}
 	case "Chip Authentication":
@@ -105,18 +123,108 @@ func checkTuple(t tuple) (key, what, sig string) {
 	if mech != 2 {
 		return "mechanism-named-without-success", fmt.Sprintf("%+v names %s", t, name), sig
 	}
-	if t.PA != 2 {
+	if t.PA != paOK {
 		return "mechanism-named-without-pa", fmt.Sprintf("%+v names %s", t, name), sig
 	}
 	return "", "", sig
+}
+
+// ---- part 2: Document.Verify ----
+
+type verifyCase struct {
+	M     int   `json:"m"`     // bit0 DG14 stored, bit1 SOD lists 14, bit2 DG15 stored, bit3 SOD lists 15, /16: CardAccess 0 absent 1 contained 2 not contained
+	Order []int `json:"order"` // order of the SOD's hash list
+}
+
+func permutations(a []int) [][]int {
+	if len(a) <= 1 {
+		return [][]int{append([]int{}, a...)}
+	}
+	var out [][]int
+	for i := range a {
+		rest := append(append([]int{}, a[:i]...), a[i+1:]...)
+		for _, p := range permutations(rest) {
+			out = append(out, append([]int{a[i]}, p...))
+		}
+	}
+	return out
+}
+
+func checkVerifyCase(vk verifyCase) (key, what, sig string, herr error) {
+	one := 1
+	m := vk.M
+	dg14, l14, dg15, l15, ca := m&1 != 0, m&2 != 0, m&4 != 0, m&8 != 0, m/16
+	cfg := perso.Config{DGs: []int{2}, BAC: true}
+	cfg.SODOpts.HashOrder = vk.Order
+	if l14 {
+		cfg.CA = []perso.CASpec{{Curve: "P-256", Cipher: 2, KeyID: &one}}
+	}
+	if l15 {
+		cfg.AA = &perso.AASpec{RSABits: 1024, Trailer: "BC"}
+	}
+	if ca > 0 {
+		cfg.PACE = []refchip.PACEProto{{Mapping: 2, Cipher: 2, ParamID: 13}}
+	}
+	if ca == 2 {
+		cfg.CardAccessExtra = []reflds.SecInfo{{Kind: "pace", OID: "0.4.0.127.0.7.2.2.4.2.4", Version: 2, HasID: true, ID: 16}}
+	}
+	p := perso.Build(cfg)
+	doc := &document.Document{}
+	var perr error
+	add := func(d int) {
+		if e := doc.NewDG(d, p.Files[d]); e != nil {
+			perr = e
+		}
+	}
+	add(1)
+	add(2)
+	if dg14 && p.Files[14] != nil {
+		add(14)
+	}
+	if dg15 {
+		add(15)
+	}
+	if perr != nil {
+		return "", "", "", perr
+	}
+	if doc.Mf.Lds1.Sod, perr = document.NewSOD(p.Files[0x1D]); perr != nil {
+		return "", "", "", perr
+	}
+	if p.CardAccess != nil {
+		doc.Mf.CardAccess, _ = document.NewCardAccess(p.CardAccess)
+	}
+	var verr error
+	if pv, _ := vc.Guard(func() { verr = doc.Verify() }); pv != nil {
+		return "panic/verify", fmt.Sprint(pv), "panic", nil
+	}
+	mustFail := (l14 && !dg14) || (l15 && !dg15) || (ca == 2 && dg14 && p.Files[14] != nil)
+	sig = fmt.Sprintf("mustFail=%v/err=%v", mustFail, verr != nil)
+	desc := fmt.Sprintf("dg14=%v listed14=%v dg15=%v listed15=%v cardaccess=%d hash-list order %v", dg14, l14, dg15, l15, ca, vk.Order)
+	if mustFail && verr == nil {
+		k := "verify-passes/"
+		switch {
+		case l14 && !dg14:
+			k += "dg14-listed-but-missing"
+		case l15 && !dg15:
+			k += "dg15-listed-but-missing"
+		default:
+			k += "cardaccess-not-contained-in-dg14"
+		}
+		return k, "Document.Verify passes for " + desc, sig, nil
+	}
+	if !mustFail && verr != nil {
+		return "verify-fails-on-complete-document", fmt.Sprintf("Document.Verify fails (%v) for %s", verr, desc), sig, nil
+	}
+	return "", "", sig, nil
 }
 
 // ---- part 3: hostile personalities ----
 
 type hostile struct {
 	Name   string `json:"name"`
-	Access string `json:"access"` // bac | pace | cam
-	Mech   string `json:"mech"`   // aa-rsa | aa-ec | ca | none
+	Access string `json:"access"`          // bac | pace | cam
+	Mech   string `json:"mech"`            // aa-rsa | aa-ec | ca | none
+	Order  string `json:"order,omitempty"` // SOD hash list: "" ascending | desc | withheld-first
 }
 
 type expect struct {
@@ -144,9 +252,20 @@ func buildHostile(h hostile) (*perso.Perso, expect, bool) {
 	case "ca":
 		cfg.CA = []perso.CASpec{{Curve: "brainpoolP256r1", Cipher: 2, KeyID: &one}}
 	}
+	switch h.Order {
+	case "desc":
+		cfg.SODOpts.HashOrder = []int{15, 14, 2, 1}
+	case "withheld-first":
+		cfg.SODOpts.HashOrder = []int{15, 14} // only one of them is listed in any scenario with a mechanism
+	}
 	var ex expect
 	switch h.Name {
 	case "genuine":
+		return perso.Build(cfg), ex, true
+	case "untrusted-issuer":
+		// everything consistent and every protocol succeeds, but the issuing CSCA is not in the trust store
+		cfg.Untrusted = true
+		ex.MustNotTrust, ex.MustBeNoneAll = true, true
 		return perso.Build(cfg), ex, true
 	case "clone-without-key":
 		switch h.Mech {
@@ -351,8 +470,8 @@ func run(c *vc.Ctx) {
 		return
 	}
 	sec1 := "(1) complete product of step outcomes"
-	c.SecBound(sec1, "3 x 2 x 3 x 3 x 3 x 2 = 324 Session values")
-	for pa := 0; pa < 3; pa++ {
+	c.SecBound(sec1, "5 x 2 x 3 x 3 x 3 x 2 = 540 Session values")
+	for pa := 0; pa < paCount; pa++ {
 		for cs := 0; cs < 2; cs++ {
 			for aa := 0; aa < 3; aa++ {
 				for cam := 0; cam < 3; cam++ {
@@ -379,109 +498,74 @@ func run(c *vc.Ctx) {
 	}
 	// (2) Document.Verify product
 	sec2 := "(2) Document.Verify completeness product"
-	c.SecBound(sec2, "DG14 stored {n,y} x SOD lists 14 {n,y} x DG15 stored {n,y} x SOD lists 15 {n,y} x CardAccess {absent, contained, not contained}")
-	one := 1
+	c.SecBound(sec2, "DG14 stored {n,y} x SOD lists 14 {n,y} x DG15 stored {n,y} x SOD lists 15 {n,y} x CardAccess {absent, contained, not contained} x all permutations of the listed data groups in the hash list")
 	for m := 0; m < 48; m++ {
-		if !c.Mine() {
-			continue
-		}
-		dg14, l14, dg15, l15, ca := m&1 != 0, m&2 != 0, m&4 != 0, m&8 != 0, m/16
+		dg14, l14, dg15, l15 := m&1 != 0, m&2 != 0, m&4 != 0, m&8 != 0
 		if (dg14 && !l14) || (dg15 && !l15) {
 			// a stored but unlisted DG cannot be produced by the issuer model; it is covered by C01 (injected DG)
 			continue
 		}
-		cfg := perso.Config{DGs: []int{2}, BAC: true}
+		listed := []int{1, 2}
 		if l14 {
-			cfg.CA = []perso.CASpec{{Curve: "P-256", Cipher: 2, KeyID: &one}}
+			listed = append(listed, 14)
 		}
 		if l15 {
-			cfg.AA = &perso.AASpec{RSABits: 1024, Trailer: "BC"}
+			listed = append(listed, 15)
 		}
-		if ca > 0 {
-			cfg.PACE = []refchip.PACEProto{{Mapping: 2, Cipher: 2, ParamID: 13}}
-		}
-		if ca == 2 {
-			cfg.CardAccessExtra = []reflds.SecInfo{{Kind: "pace", OID: "0.4.0.127.0.7.2.2.4.2.4", Version: 2, HasID: true, ID: 16}}
-		}
-		p := perso.Build(cfg)
-		doc := &document.Document{}
-		var perr error
-		add := func(d int) {
-			if e := doc.NewDG(d, p.Files[d]); e != nil {
-				perr = e
+		for _, order := range permutations(listed) {
+			if !c.Mine() {
+				continue
 			}
-		}
-		add(1)
-		add(2)
-		if dg14 && p.Files[14] != nil {
-			add(14)
-		}
-		if dg15 {
-			add(15)
-		}
-		doc.Mf.Lds1.Sod, perr = document.NewSOD(p.Files[0x1D])
-		if p.CardAccess != nil {
-			doc.Mf.CardAccess, _ = document.NewCardAccess(p.CardAccess)
-		}
-		if perr != nil {
-			c.HarnessError("part 2 build: %v", perr)
-			continue
-		}
-		var verr error
-		if pv, _ := vc.Guard(func() { verr = doc.Verify() }); pv != nil {
-			c.Violation(sec2, "panic/verify", fmt.Sprint(pv), m, nil)
-			continue
-		}
-		mustFail := (l14 && !dg14) || (l15 && !dg15) || (ca == 2 && dg14 && p.Files[14] != nil)
-		c.AddStates(1)
-		c.AddTraces(1)
-		c.Outcome(sec2, fmt.Sprintf("mustFail=%v/err=%v", mustFail, verr != nil))
-		c.Distinct(fmt.Sprintf("v/%d", m))
-		if mustFail && verr == nil {
-			k := "verify-passes/"
-			switch {
-			case l14 && !dg14:
-				k += "dg14-listed-but-missing"
-			case l15 && !dg15:
-				k += "dg15-listed-but-missing"
-			default:
-				k += "cardaccess-not-contained-in-dg14"
+			vk := verifyCase{M: m, Order: order}
+			key, what, sig, herr := checkVerifyCase(vk)
+			if herr != nil {
+				c.HarnessError("part 2 build %+v: %v", vk, herr)
+				continue
 			}
-			c.Violation(sec2, k, fmt.Sprintf("Document.Verify passes for dg14=%v listed14=%v dg15=%v listed15=%v cardaccess=%d", dg14, l14, dg15, l15, ca), m, nil)
-		}
-		if !mustFail && verr != nil {
-			c.Violation(sec2, "verify-fails-on-complete-document", fmt.Sprintf("Document.Verify fails (%v) for dg14=%v listed14=%v dg15=%v listed15=%v cardaccess=%d", verr, dg14, l14, dg15, l15, ca), m, nil)
+			c.AddStates(1)
+			c.AddTraces(1)
+			c.Outcome(sec2, sig)
+			c.Distinct(fmt.Sprintf("v/%d/%v", m, order))
+			if key != "" {
+				c.Violation(sec2, key, what, vk, func() bool { k, _, _, _ := checkVerifyCase(vk); return k != "" })
+			}
 		}
 	}
 	// (3) hostile chips end to end
 	sec3 := "(3) hostile chip personalities, live and offline"
-	names := []string{"genuine", "clone-without-key", "substituted-key-pair", "dg-withheld", "cardaccess-not-in-dg14"}
-	c.SecBound(sec3, fmt.Sprintf("%v x access {bac,pace,cam} x mechanism {aa-rsa,aa-ec,ca,none}", names))
+	names := []string{"genuine", "clone-without-key", "substituted-key-pair", "dg-withheld", "untrusted-issuer", "cardaccess-not-in-dg14"}
+	c.SecBound(sec3, fmt.Sprintf("%v x access {bac,pace,cam} x mechanism {aa-rsa,aa-ec,ca,none} (genuine and dg-withheld: x hash-list order {ascending, descending, withheld-first})", names))
 	for _, n := range names {
 		for _, acc := range []string{"bac", "pace", "cam"} {
 			for _, mech := range []string{"aa-rsa", "aa-ec", "ca", "none"} {
-				if !c.Mine() {
-					continue
+				orders := []string{""}
+				if n == "dg-withheld" || n == "genuine" {
+					orders = []string{"", "desc", "withheld-first"}
 				}
-				h := hostile{n, acc, mech}
-				v := runHostile(h)
-				if v.Sig == "n/a" {
-					continue
-				}
-				c.AddStates(1)
-				c.AddTrans(int64(v.Exchanges))
-				c.AddTraces(1)
-				c.Outcome(sec3, n+" -> "+v.Sig)
-				c.Distinct(fmt.Sprintf("h/%+v/%s", h, v.Sig))
-				if v.Key != "" {
-					c.Violation(sec3, v.Key, v.What, h, func() bool { return runHostile(h).Key != "" })
+				for _, ord := range orders {
+					if !c.Mine() {
+						continue
+					}
+					h := hostile{n, acc, mech, ord}
+					v := runHostile(h)
+					if v.Sig == "n/a" {
+						continue
+					}
+					c.AddStates(1)
+					c.AddTrans(int64(v.Exchanges))
+					c.AddTraces(1)
+					c.Outcome(sec3, n+" -> "+v.Sig)
+					c.Distinct(fmt.Sprintf("h/%+v/%s", h, v.Sig))
+					if v.Key != "" {
+						c.Violation(sec3, v.Key, v.What, h, func() bool { return runHostile(h).Key != "" })
+					}
 				}
 			}
 		}
 	}
 	if c.Shard == 0 {
-		c.Sample(tuple{2, 0, 0, 2, 2, 0})
-		c.Sample(hostile{"substituted-key-pair", "pace", "ca"})
+		c.Sample(tuple{paOK, 0, 0, 2, 2, 0})
+		c.Sample(hostile{"substituted-key-pair", "pace", "ca", ""})
 	}
 }
 
@@ -494,6 +578,14 @@ func replay(c *vc.Ctx, raw json.RawMessage) string {
 	refpki.EnsureKeys()
 	var t tuple
 	var h hostile
+	var vk verifyCase
+	if json.Unmarshal(doc.Case, &vk) == nil && vk.Order != nil {
+		k, w, sig, herr := checkVerifyCase(vk)
+		if k != "" {
+			c.Violation(doc.Section, k, w, vk, nil)
+		}
+		return fmt.Sprintf("Document.Verify case %+v -> %s; verdict: %s %s %v", vk, sig, k, w, herr)
+	}
 	if json.Unmarshal(doc.Case, &h) == nil && h.Name != "" {
 		v := runHostile(h)
 		if v.Key != "" {
